@@ -2,6 +2,7 @@ package rules
 
 import (
 	"fmt"
+	"go/types"
 	"strings"
 
 	"golang.org/x/tools/go/ssa"
@@ -207,11 +208,264 @@ func init() {
 	register(&Property{
 		ID:    "C19",
 		Level: "other",
-		Explanation: "Decides the 'same value everywhere' half of the property structurally: C19-args — at each of the four encoding sites (PP commitment GlobalIndex.Hash, FEP commitment GlobalIndexToLittleEndianBytes, the Agglayer wire conversion, the prover request) the three arguments of GenerateGlobalIndex are MainnetFlag, RollupIndex, LeafIndex of ONE GlobalIndex object, in that order, and the single decode site stores DecodeGlobalIndex's three results into the same-named fields and propagates its error; C19-single — every call of the encoder feeds the encoding its consumer expects (32-byte little-endian for the two commitments, 32-byte big-endian for wire and prover), a new encoder call site or any function that reads RollupIndex and LeafIndex and builds a big.Int itself is reported, and the optimistic commitment uses the claim's own on-chain index through the same little-endian helper; C19-le — the little-endian helper reverses the big-endian magnitude into a 32-byte buffer (structure only). Declined: round-trip and bit layout of GenerateGlobalIndex / DecodeGlobalIndex (byte-length arithmetic on big.Int).",
+		Explanation: "Decides the 'same value everywhere' half of the property structurally: C19-args — at each of the four encoding sites (PP commitment GlobalIndex.Hash, FEP commitment GlobalIndexToLittleEndianBytes, the Agglayer wire conversion, the prover request) the three arguments of GenerateGlobalIndex are MainnetFlag, RollupIndex, LeafIndex of ONE GlobalIndex object, in that order, and the single decode site stores DecodeGlobalIndex's three results into the same-named fields and propagates its error; C19-single — every call of the encoder feeds the encoding its consumer expects (32-byte little-endian for the two commitments, 32-byte big-endian for wire and prover), a new encoder call site or any function that reads RollupIndex and LeafIndex and builds a big.Int itself is reported, and the optimistic commitment uses the claim's own on-chain index through the same little-endian helper; C19-le — the little-endian helper reverses the big-endian magnitude into a 32-byte buffer (structure only). C19-encode — the bytes GenerateGlobalIndex hands to SetBytes, evaluated per edge of `if mainnetFlag`: 01‖BE32(0)‖BE32(leaf) on the mainnet edge and BE32(rollup)‖BE32(leaf) otherwise (= flag·2^64 + rollup·2^32 + leaf with the rollup part forced to zero for mainnet, the contract's layout), and no FillBytes into the shared scratch buffer between a FillBytes and the append that copies its result; C19-decode — mainnetFlag is true exactly on the edge of a recognised 'bit 64 is set' test (len(Bytes())==9, BitLen()>64, Bit(64)==1), leaf = the last ≤4 bytes, rollup = the ≤4 bytes before them, BytesToUint32 left-pads and reads big-endian; C19-carry (shared with C10-commit) — both signed commitments hold one element per claim, for the whole range, in order, built from that claim's own index in storage of its own. With big.Int.Bytes() being the minimal big-endian form these premises give decode(encode(f, r, l)) = (f, f ? 0 : r, l) by a three-line argument (DESIGN §4 C19); the checker decides the premises, not the arithmetic itself.",
 		Rules: []Rule{
 			{ID: "C19-args", Floor: 6, Run: c19Args, Text: "[PROV] encoder arguments from one object in order; decoder results to same-named fields"},
 			{ID: "C19-single", Floor: 6, Run: c19Single, Text: "[WHO] encoder call sites and their encodings; no hand-rolled second encoder"},
 			{ID: "C19-le", Floor: 1, Run: c19LE, Text: "structure of the little-endian helper"},
+			{ID: "C19-encode", Floor: 3, Run: c19Encode, Text: "[LAYOUT] bytes built by GenerateGlobalIndex on the mainnet / rollup edge; scratch buffer not reused before it is copied"},
+			{ID: "C19-decode", Floor: 3, Run: c19Decode, Text: "decoder reads the same layout: flag edge, leaf and rollup slices, left-padded big-endian helper"},
+			{ID: "C19-carry", Floor: 10, Run: func(c *core.Ctx) {
+				commitRule(c, "C19-carry", map[string]bool{"PPHashToSign": true, "FEPHashToSign": true})
+			}, Text: "[LIST] (shared with C10) both signed commitments carry every claim's own global index, one per claim, in storage of its own"},
 		},
 	})
+}
+
+// giBytes evaluates the byte string handed to SetBytes in GenerateGlobalIndex on the path where the flag is `flag`:
+// a list of parts "CONST(01)", "BE4(0)", "BE4(param)".
+func giBytes(fn *ssa.Function, v ssa.Value, flag bool, flagIf *ssa.If, d int) ([]string, string) {
+	if d > 12 {
+		return nil, "too deep"
+	}
+	switch x := v.(type) {
+	case *ssa.Const:
+		if x.Value == nil {
+			return nil, ""
+		}
+	case *ssa.Phi:
+		// pick the edge that is taken when the flag has the given value: either the direct edge out of `if mainnetFlag`
+		// or a predecessor dominated by the matching branch block
+		ifb := flagIf.Block()
+		var pick ssa.Value
+		n := 0
+		for i, e := range x.Edges {
+			p := x.Block().Preds[i]
+			var val, known bool
+			switch {
+			case p == ifb:
+				val, known = ifb.Succs[0] == x.Block(), ifb.Succs[0] != ifb.Succs[1]
+			case ifb.Succs[0] != x.Block() && ifb.Succs[0].Dominates(p):
+				val, known = true, true
+			case ifb.Succs[1] != x.Block() && ifb.Succs[1].Dominates(p):
+				val, known = false, true
+			}
+			if known && val == flag {
+				pick = e
+				n++
+			}
+		}
+		if n != 1 {
+			return nil, "phi not split by the mainnet flag"
+		}
+		return giBytes(fn, pick, flag, flagIf, d+1)
+	case *ssa.Call:
+		if b, ok := x.Call.Value.(*ssa.Builtin); ok && b.Name() == "append" {
+			a, e1 := giBytes(fn, x.Call.Args[0], flag, flagIf, d+1)
+			b2, e2 := giBytes(fn, x.Call.Args[1], flag, flagIf, d+1)
+			return append(append([]string{}, a...), b2...), e1 + e2
+		}
+		switch core.CallName(x) {
+		case "(*math/big.Int).Bytes":
+			if in, ok := x.Call.Args[0].(*ssa.Call); ok && core.CallName(in) == "math/big.NewInt" {
+				if k, ok := core.ConstInt(in.Call.Args[0]); ok && k > 0 && k < 256 {
+					return []string{fmt.Sprintf("CONST(%02x)", k)}, ""
+				}
+			}
+		case "(*math/big.Int).FillBytes":
+			sl, ok := x.Call.Args[1].(*ssa.Slice)
+			if !ok || sl.Low != nil || sl.High != nil {
+				return nil, "FillBytes into a partial buffer"
+			}
+			n := arrayLenOf(sl.X.Type())
+			val := ""
+			switch r := x.Call.Args[0].(type) {
+			case *ssa.Alloc: // new(big.Int): zero, provided nothing else sets it
+				for _, ref := range *r.Referrers() {
+					if ref != ssa.Instruction(x) {
+						if _, isDbg := ref.(*ssa.DebugRef); !isDbg {
+							return nil, "zero big.Int has other uses"
+						}
+					}
+				}
+				val = "0"
+			case *ssa.Call:
+				if core.CallName(r) == "(*math/big.Int).SetUint64" {
+					a := r.Call.Args[1]
+					if cv, ok := a.(*ssa.Convert); ok {
+						a = cv.X
+					}
+					if p, ok := a.(*ssa.Parameter); ok {
+						for i, fp := range fn.Params {
+							if fp == p {
+								val = fmt.Sprintf("param%d", i)
+							}
+						}
+					}
+				}
+			}
+			if val == "" {
+				return nil, "unrecognised FillBytes operand"
+			}
+			return []string{fmt.Sprintf("BE%d(%s)", n, val)}, ""
+		}
+	}
+	return nil, fmt.Sprintf("unrecognised byte source %T", v)
+}
+
+func arrayLenOf(t types.Type) int64 {
+	if p, ok := t.Underlying().(*types.Pointer); ok {
+		t = p.Elem()
+	}
+	if a, ok := t.Underlying().(*types.Array); ok {
+		return a.Len()
+	}
+	return -1
+}
+
+// c19Encode: the integer GenerateGlobalIndex builds is flag·2^64 + rollup·2^32 + leaf with the rollup part forced to zero
+// on the mainnet edge — read as bytes: mainnet 01‖00000000‖BE32(leaf), otherwise BE32(rollup)‖BE32(leaf).
+func c19Encode(c *core.Ctx) {
+	const rule = "C19-encode"
+	fn := c.MustFn(rule, "bridgesync", "", "GenerateGlobalIndex")
+	if fn == nil {
+		return
+	}
+	var flagIf *ssa.If
+	core.Instrs(fn, func(i ssa.Instruction) {
+		if iff, ok := i.(*ssa.If); ok && iff.Cond == ssa.Value(fn.Params[0]) {
+			flagIf = iff
+		}
+	})
+	var set *ssa.Call
+	for _, r := range core.Returns(fn) {
+		if cl, ok := r.Results[0].(*ssa.Call); ok && core.CallName(cl) == "(*math/big.Int).SetBytes" {
+			set = cl
+		}
+	}
+	if flagIf == nil || set == nil || len(core.Returns(fn)) != 1 {
+		c.Violate(rule, "bridgesync.GenerateGlobalIndex#shape", fn.Pos(), "expected `if mainnetFlag` and a single return of new(big.Int).SetBytes(bytes)")
+		return
+	}
+	for _, w := range []struct {
+		flag bool
+		name string
+		want string
+	}{
+		{true, "mainnet", "[CONST(01) BE4(0) BE4(param2)]"},
+		{false, "rollup", "[BE4(param1) BE4(param2)]"},
+	} {
+		parts, problem := giBytes(fn, set.Call.Args[1], w.flag, flagIf, 0)
+		got := fmt.Sprint(parts)
+		c.Decide(problem == "" && got == w.want, rule, "bridgesync.GenerateGlobalIndex#"+w.name, set.Pos(), fmt.Sprintf("big-endian bytes on the %s edge = %s %s (contract: bit 64 flag, bits 63..32 rollup index — zero for mainnet —, bits 31..0 leaf index)", w.name, got, problem))
+	}
+	// the scratch buffer is shared: each FillBytes result is appended before the buffer is filled again
+	okAlias := true
+	n := 0
+	core.Instrs(fn, func(i ssa.Instruction) {
+		cl, ok := i.(*ssa.Call)
+		if !ok || core.CallName(cl) != "(*math/big.Int).FillBytes" {
+			return
+		}
+		n++
+		var use ssa.Instruction
+		for _, r := range *cl.Referrers() {
+			if cc := core.AsCall(r); cc != nil {
+				use = r
+			}
+		}
+		if use == nil {
+			okAlias = false
+			return
+		}
+		f := (&core.Walk{Stop: func(x ssa.Instruction) bool { return x == use }, Target: func(x ssa.Instruction) bool {
+			o, ok := x.(*ssa.Call)
+			return ok && o != cl && core.CallName(o) == "(*math/big.Int).FillBytes"
+		}}).From(core.After(cl), nil)
+		if f != nil {
+			okAlias = false
+		}
+	})
+	c.Decide(okAlias && n >= 2, rule, "bridgesync.GenerateGlobalIndex#scratch-buffer", fn.Pos(), "every FillBytes result is consumed (copied by append) before the shared buffer is filled again")
+}
+
+// c19Decode: the decoder reads the same layout back: flag ⇔ the minimal big-endian form has 9 bytes (bit 64 set for
+// any value below 2^72), leaf = the last (up to) 4 bytes, rollup = the (up to) 4 bytes before them.
+func c19Decode(c *core.Ctx) {
+	const rule = "C19-decode"
+	fn := c.MustFn(rule, "bridgesync", "", "DecodeGlobalIndex")
+	if fn == nil {
+		return
+	}
+	sx := core.NewSymx()
+	B := "(*math/big.Int).Bytes(globalIndex)"
+	L := "len(" + B + ")"
+	// recognised forms of "bit 64 is set"
+	flagForms := map[string]bool{
+		"(" + L + " == const(9))": true,
+		"((*math/big.Int).BitLen(globalIndex) > const(64))":  true,
+		"((*math/big.Int).BitLen(globalIndex) >= const(65))": true,
+		"((*math/big.Int).BitLen(globalIndex) == const(65))": true,
+		"((*math/big.Int).Bit(globalIndex, const(64)) == const(1))": true,
+		"((*math/big.Int).Bit(globalIndex, const(64)) != const(0))": true,
+	}
+	on := core.TermEdges(fn, sx, func(s string, _ *core.Term) bool { return flagForms[s] }, true)
+	off := core.TermEdges(fn, sx, func(s string, _ *core.Term) bool { return flagForms[s] }, false)
+	empty := core.TermEdges(fn, sx, func(s string, _ *core.Term) bool { return s == "("+L+" == const(0))" }, true)
+	lo := "builtin.max((" + L + " - const(4)), const(0))"
+	lo2 := "builtin.max((" + lo + " - const(4)), const(0))"
+	wantLeaf := "common.BytesToUint32(" + B + "[" + lo + ":])"
+	wantRollup := "common.BytesToUint32(" + B + "[" + lo2 + ":" + lo + "])"
+	okFlag, okParts := len(on) > 0, true
+	nTrue := 0
+	detail := ""
+	for _, rc := range core.ReturnCases(fn) {
+		f := sx.Of(rc.Values[0]).String()
+		r, l := sx.Of(rc.Values[1]).String(), sx.Of(rc.Values[2]).String()
+		switch f {
+		case "const(true)":
+			nTrue++
+			okFlag = okFlag && rc.ReachableOnlyVia(fn, on)
+		case "const(false)":
+			okFlag = okFlag && rc.ReachableOnlyVia(fn, append(append([]core.IfEdge{}, off...), empty...))
+		default:
+			okFlag = false
+		}
+		if r == "const(0)" && l == "const(0)" && len(empty) > 0 && rc.ReachableOnlyVia(fn, empty) {
+			continue // the zero value
+		}
+		if r != wantRollup || l != wantLeaf {
+			okParts = false
+			detail = r + " ; " + l
+		}
+	}
+	c.Decide(okFlag && nTrue >= 1, rule, "bridgesync.DecodeGlobalIndex#flag", fn.Pos(), "mainnetFlag is true exactly on the edge where bit 64 is set (recognised forms: len(Bytes())==9, BitLen()>64, Bit(64)==1)")
+	c.Decide(okParts, rule, "bridgesync.DecodeGlobalIndex#parts", fn.Pos(), "leaf = last ≤4 bytes, rollup = the ≤4 bytes before them (zero-padded by BytesToUint32) "+detail)
+	// BytesToUint32 left-pads to 4 bytes and reads big-endian
+	b2u := c.MustFn(rule, "common", "", "BytesToUint32")
+	if b2u != nil {
+		ok := false
+		for _, r := range core.Returns(b2u) {
+			s := sx.Of(r.Results[0]).String()
+			ok = strings.HasPrefix(s, "(encoding/binary.bigEndian).Uint32(")
+		}
+		okCopy := false
+		core.Instrs(b2u, func(i ssa.Instruction) {
+			if cc := core.AsCall(i); cc != nil {
+				if b, isB := cc.Value.(*ssa.Builtin); isB && b.Name() == "copy" {
+					dst := sx.Of(cc.Args[0]).String()
+					okCopy = strings.HasSuffix(dst, "[(const(4) - len(bytes)):]") && sx.Of(cc.Args[1]).String() == "bytes"
+					// the buffer read is the buffer filled
+					if sl, isS := cc.Args[0].(*ssa.Slice); isS {
+						for _, r := range core.Returns(b2u) {
+							if rc, isC := r.Results[0].(*ssa.Call); isC && len(rc.Call.Args) > 0 {
+								okCopy = okCopy && rc.Call.Args[len(rc.Call.Args)-1] == sl.X
+							}
+						}
+					}
+				}
+			}
+		})
+		c.Decide(ok && okCopy, rule, "common.BytesToUint32#left-padded-big-endian", b2u.Pos(), "copy(padded[4-len(b):], b); BigEndian.Uint32(padded)")
+	}
 }
